@@ -275,12 +275,17 @@ def run(ctx):
     vals = [const_value(e['args'][0]) for f, e in calls_to(prog, 'Node::set_dyndep_pending')]
     ctx.check('C11.W1', 0 in vals and 1 in vals, 'Node::set_dyndep_pending', 'pending:lifecycle-incomplete', 'src/dyndep.cc',
               'the pending flag is both set (parser) and cleared (loader): %s' % sorted(set(vals), key=str))
+    # the field itself has no writer besides the setter (and its initialiser): in particular no per-scan reset touches
+    # it - State::Reset() between the manifest regeneration and the real build must leave "still to be loaded" alone
+    for f, e, kind, rhs in field_writes(prog, 'Node::dyndep_pending_'):
+        ctx.check('C11.W1', e.get('init') or f.name in ('Node::set_dyndep_pending', 'Node::Node'), f.name, 'pending:direct-writer', f.where(e),
+                  'Node::dyndep_pending_ is written only through set_dyndep_pending (writer: %s)' % f.name)
     mp = prog.fn('ManifestParser::ParseEdge')
     reject_if(ctx, 'C11.W1', mp, lambda a: strip(a).get('k') == 'call' and
               basename(strip(a).get('name') or '').startswith('operator==') and var_named('dgi')(
                   (strip(a).get('args') or [None])[0] if 'recv' not in strip(a) else strip(a)['recv']),
               True, 'X9 the dyndep binding must name one of the statement\'s inputs', 'X9:dyndep-not-input')
-    ctx.floor('C11.W1', 3)
+    ctx.floor('C11.W1', 4)
 
     # ---- O1: load points ------------------------------------------------------------------------------
     R('C11.O1', 'O', 'scan: a pending dyndep node is scanned, and loaded only when it has no '
@@ -298,7 +303,7 @@ def run(ctx):
                          'scan-time load only behind the dyndep_pending() test', 'scan:load-non-pending')
         dominated_by(ctx, 'C11.O1', scan, e, lambda x: x['k'] == 'call' and
                      x.get('name') == 'DependencyScan::RecomputeNodeDirty' and
-                     mentions_field(x['args'][0], 'Edge::dyndep_'),
+                     mentions_field(deep_resolve(scan, x['args'][0]), 'Edge::dyndep_'),
                      'the dyndep node itself is scanned first', 'scan:dyndep-node-not-scanned')
         # not reachable when the producer exists and is not ready
         bad = None
